@@ -471,7 +471,30 @@ func check(bin, dir, prop, tier string, base uint64, workers int, scale float64,
 		seen := map[string]int{}
 		reported := map[string]int{}
 		knownSeen := map[*knownFinding]int{}
-		for _, f := range fr.failures {
+		queue := fr.failures
+		isolated := false
+		for qi := 0; ; qi++ {
+			if qi >= len(queue) {
+				// every witness tried for some class depended on earlier runs of its worker process: search the first seeds
+				// again with one process per run; what fails there fails by itself and replays
+				var classes []string
+				for c, n := range fr.noReplay {
+					if n > 0 && !fr.reportedClass[c] {
+						classes = append(classes, c)
+						seen[c] = 0
+					}
+				}
+				if isolated || len(classes) == 0 {
+					break
+				}
+				isolated = true
+				more := isolatedSearch(bin, dir, prop, tier, base, workers, d, phrases, classes, fr)
+				queue = append(queue, more...)
+				if qi >= len(queue) {
+					break
+				}
+			}
+			f := queue[qi]
 			var pre *knownFinding
 			for i := range known {
 				k := &known[i]
@@ -577,7 +600,7 @@ func check(bin, dir, prop, tier string, base uint64, workers int, scale float64,
 	}
 	for _, fr := range results {
 		for k, v := range fr.agg.Aborts {
-			if k != "wallclock" && k != "worker-died-span-rerun-isolated" && k != "run-died-alone" && v > 0 && exit == 0 {
+			if k != "wallclock" && k != "worker-died-span-rerun-isolated" && k != "run-died-alone" && k != "isolated-search-after-unreproducible-witness" && v > 0 && exit == 0 {
 				fmt.Fprintf(os.Stderr, "INFRA: %d runs aborted (%s)\n", v, k)
 				return 2
 			}
@@ -592,6 +615,52 @@ func sumInts(m map[string]int) int {
 		n += v
 	}
 	return n
+}
+
+// isolatedSearch runs the first seeds of a family one process per run and returns the failing runs of the given classes.
+func isolatedSearch(bin, dir, prop, tier string, base uint64, workers int, d famDesc, known map[string][]string, classes []string, fr *famResult) []failure {
+	want := map[string]bool{}
+	for _, c := range classes {
+		want[c] = true
+	}
+	const n = 160
+	var mu sync.Mutex
+	var out []failure
+	var wg sync.WaitGroup
+	ch := make(chan uint64)
+	for i := 0; i < workers; i++ {
+		wg.Add(1)
+		go func() {
+			defer wg.Done()
+			for idx := range ch {
+				mu.Lock()
+				enough := len(out) >= 4
+				mu.Unlock()
+				if enough {
+					continue
+				}
+				wo, _, err := runWorker(bin, dir, job{Prop: prop, Family: d.Name, Mode: "search", Tier: tier, Base: base, Start: idx, Count: 1, WallS: 120, Known: known}, 1, 3*time.Minute)
+				if err != nil {
+					continue
+				}
+				mu.Lock()
+				for _, f := range wo.Failures {
+					if want[f.Class] {
+						out = append(out, f)
+					}
+				}
+				mu.Unlock()
+			}
+		}()
+	}
+	for idx := uint64(0); idx < n; idx++ {
+		ch <- idx
+	}
+	close(ch)
+	wg.Wait()
+	sort.Slice(out, func(i, j int) bool { return out[i].Index < out[j].Index })
+	fr.agg.Aborts["isolated-search-after-unreproducible-witness"] += 1
+	return out
 }
 
 // merge adds one worker's counters and failures to the family's (caller holds the lock).
